@@ -1230,7 +1230,10 @@ def trim_cast_varchar(expression: exp.Expression) -> exp.Expression:
         return expression
 
     return exp.Trim(
-        this=exp.Cast(this=operand, to=exp.DataType(this=exp.DataType.Type.VARCHAR, nested=False, prefix=False))
+        this=exp.Cast(this=operand, to=exp.DataType(this=exp.DataType.Type.VARCHAR, nested=False, prefix=False)),
+        # keep the characters to remove and the side (LTRIM / RTRIM)
+        expression=expression.args.get("expression"),
+        position=expression.args.get("position"),
     )
 
 
